@@ -18,15 +18,17 @@ PROP = dict(
     assumptions=["glibc sinl/cosl/atan2l/sqrtl and libquadmath sinq/cosq/atan2q/sqrtq are accurate to well below eps of float/double (reference arithmetic)",
                  "convention read from ImathQuat.h and confirmed by the oracle: Hamilton quaternions, rotateVector(p) = q p q*, matrices act on row vectors, so (q1*q2).toMatrix33() = q2.toMatrix33()*q1.toMatrix33()",
                  "'unit quaternion' = unit after rounding to the type (|q| = 1 + O(eps)); 'close to -1' for exp(log q) = real part <= -1+1e-3 (float) / -1+1e-6 (double), beyond that the tolerance grows as 1/(1+r)",
-                 "slerp is judged for angle4D(q1,q2) < 0.95 pi (the function documents q1 != -q2); spline tangents are compared by second-order one-sided difference quotients, h = 2^-17 (double, 1e-6 relative) and 2^-6 (float, 2e-2 relative), for key sequences with consecutive rotations of 0.1..0.9 rad",
+                 "'reproduces q' (exp(log q), setAxisAngle(axis(),angle()), extractQuat(toMatrix44())) is judged as |q' -+ q|_inf <= C eps and, on the side of the identity (r >= 0, resp. |r| > 1/2 for extractQuat), also as |v' - v| <= C eps |v| for the imaginary part: the quantifier names rotations by 1e-1..1e-12 rad, for which an absolute bound alone would be vacuous",
+                 "slerp is judged for angle4D(q1,q2) = a < 0.95 pi (the function documents q1 != -q2) with tolerances proportional to the conditioning 1/cos(a/2); spline tangents are compared by second-order one-sided difference quotients, h = 2^-17 (double, 1e-6) and 2^-7 (float, 2e-2), mismatch relative to max(|tangent|, 4-D angles of the two adjacent key intervals), for key sequences with consecutive rotations of 0.1..0.9 rad",
                  "gcc on x86-64 (SSE2 arithmetic, no FMA contraction); other compilers' code generation is not observed"],
     technique=("class-directed randomised execution of the real Quat / Matrix44 / MatrixAlgo code with a high-precision reference quaternion algebra "
                "(long double / __float128) and calibrated C*eps tolerances; branch-coverage counters for extractQuat, setRotation, log/exp and "
                "sinx_over_x; ASan/UBSan on a 5% sample"),
-    level_text=("Each clause of the statement is executed on 10^5..10^6 (quick) / 10^7 (thorough) class-directed cases per type; every branch of "
-                "extractQuat, of setRotation (direct, two-step, the three arms of the exactly-antipodal fall-back, halfway vector made of "
-                "rounding noise) and the tiny-argument arms of log/exp/sinx_over_x are required to be observed in every run. The input space "
-                "(unit quaternions x vectors x t) is continuous and only sampled."),
+    level_text=("Each clause of the statement is executed on 2*10^5..2*10^6 (quick, 2.4*10^7 in total) / 4*10^6..4*10^7 (thorough, 4.2*10^8 in total) "
+                "class-directed cases per sub-check and type; every branch of extractQuat, of setRotation (direct, two-step, the three arms of the "
+                "exactly-antipodal fall-back, halfway vector made of rounding noise), every k of pi - 1e-k (k = 1..15) and the tiny-argument arms of "
+                "log/exp/sinx_over_x are required to be observed in every run. The input space (unit quaternions x vectors x t) is continuous and "
+                "only sampled."),
     level_note="sampled, not exhaustive; reference functions of glibc/libquadmath are trusted; tangent continuity is a finite-difference estimate",
     monitors=[M("c10_rotation", ["c10_rot.cpp", "c10_setrot.cpp", "c10_slerp.cpp"], san_scale=0.05, san_scale_thorough=0.02)],
 )
